@@ -15,6 +15,8 @@ structure RInv (r : Ring.Ring) : Prop where
 /-- no host of the ring with another id has the address of `h` -/
 def AddrFree (r : Ring.Ring) (h : RHost) : Prop := ∀ e ∈ r.byId, e.2.addr = h.addr → e.1 = h.id
 
+instance (r : Ring.Ring) (h : RHost) : Decidable (AddrFree r h) := by unfold AddrFree; infer_instance
+
 theorem RInv_empty : RInv Ring.empty := ⟨by simp [WF, Ring.empty], by simp [keys, Ring.empty], by simp [Ring.empty], by simp [Ring.empty]⟩
 
 theorem RInv_addIfMissing (r : Ring.Ring) (hr : RInv r) (h : RHost) (hfree : AddrFree r h) : RInv (r.addIfMissing h).1 := by
